@@ -493,6 +493,9 @@ def _load_json(
         for uid in cache:
             u = _node_from_int(int(uid), bdd, cache)
             bdd.decref(u, _direct=True)
+        if load_order:
+            bdd.configure(
+                reordering=old_reordering['reordering'])
         raise
     # rm refs to cached nodes
     for uid in cache:
@@ -519,7 +522,7 @@ def _load_json(
     bdd.assert_consistent()
     if load_order:
         bdd.configure(
-            reordering=old_reordering)
+            reordering=old_reordering['reordering'])
     return roots
 
 
